@@ -1,6 +1,7 @@
 import Zrnt.Beacon.Impl.Epoch
 import Proofs.Lemmas.C02Registry
 import Proofs.Lemmas.C02Altair
+import Proofs.Lemmas.C02Phase0
 import Zrnt.Beacon.Impl.Final
 /-!
 # C02 — slot, epoch and fork-upgrade processing equals the consensus spec
@@ -423,5 +424,54 @@ theorem syncCommittee_rotation_eq (cfg : Config) (vals : List Validator) (active
   · exact Lemmas.syncLoop_eq cfg vals active seed shuffled fuel 0 ZERO32 [] (fun h => absurd rfl h)
   · unfold Impl.processSyncCommitteeUpdates process_sync_committee_updates_pure
     simp
+
+/-! ## Phase0: attester statuses and attestation rewards -/
+
+/-- `rewards_phase0_eq`: zrnt's phase0 rewards — `ComputeEpochAttesterData` (one `AttesterStatus` per validator: flag
+bits set and the earliest inclusion remembered while walking the pending attestations and their participants; three
+nested stake sums), `AttestationRewardsAndPenalties` (ONE pass over the validators producing the source, target,
+head, inclusion-delay and inactivity deltas from the statuses), the sum of the five deltas and one `ApplyDeltas` —
+equals the spec's `process_rewards_and_penalties`: `get_attestation_deltas` built from `get_source_deltas`,
+`get_target_deltas`, `get_head_deltas` (each over `get_unslashed_attesting_indices` of the matching attestations),
+`get_inclusion_delay_deltas` (per attester the `min` over its attestations by inclusion delay) and
+`get_inactivity_penalty_deltas`, applied validator by validator. For every registry, every list of resolved
+pending attestations (previous and current epoch), every finality delay, configuration and balance list. -/
+theorem rewards_phase0_eq (cfg : Config) (flats : List Validator) (prevEpoch curEpoch : Nat)
+    (prevAtts currAtts : List ResolvedAtt) (finalityDelay : Nat) (balances : List Nat)
+    (hlen : balances.length = flats.length) :
+    Impl.processEpochRewardsAndPenaltiesPhase0 cfg flats
+        (Impl.computeEpochAttesterDataPhase0 cfg flats prevEpoch prevAtts currAtts)
+        (total_active_balance_of cfg flats curEpoch) finalityDelay cfg.INACTIVITY_PENALTY_QUOTIENT balances =
+      process_rewards_and_penalties_phase0_pure cfg flats balances prevEpoch curEpoch finalityDelay
+        (decide (finalityDelay > cfg.MIN_EPOCHS_TO_INACTIVITY_PENALTY)) prevAtts :=
+  Lemmas.rewards_phase0 cfg flats prevEpoch curEpoch prevAtts currAtts finalityDelay balances hlen
+
+/-- the five deltas separately (what `rewards_phase0_eq` is assembled from) -/
+theorem attestationDeltas_phase0_eq (cfg : Config) (flats : List Validator) (prevEpoch : Nat)
+    (prevAtts currAtts : List ResolvedAtt) (total finalityDelay : Nat) (r : Impl.RewardsAndPenalties)
+    (hr : r = Impl.attestationRewardsAndPenalties cfg flats
+      (Impl.computeEpochAttesterDataPhase0 cfg flats prevEpoch prevAtts currAtts) total finalityDelay cfg.INACTIVITY_PENALTY_QUOTIENT) :
+    r.source = get_attestation_component_deltas_pure cfg flats prevEpoch total
+      (decide (finalityDelay > cfg.MIN_EPOCHS_TO_INACTIVITY_PENALTY)) prevAtts ∧
+    r.target = get_attestation_component_deltas_pure cfg flats prevEpoch total
+      (decide (finalityDelay > cfg.MIN_EPOCHS_TO_INACTIVITY_PENALTY)) (matching_target_atts prevAtts) ∧
+    r.head = get_attestation_component_deltas_pure cfg flats prevEpoch total
+      (decide (finalityDelay > cfg.MIN_EPOCHS_TO_INACTIVITY_PENALTY)) (matching_head_atts prevAtts) ∧
+    r.inclusionDelay = (get_inclusion_delay_deltas_pure cfg flats total prevAtts, zeros flats.length) ∧
+    r.inactivity = (zeros flats.length, get_inactivity_penalty_deltas_phase0_pure cfg flats prevEpoch total finalityDelay
+      (decide (finalityDelay > cfg.MIN_EPOCHS_TO_INACTIVITY_PENALTY)) prevAtts) :=
+  Lemmas.attestationRewards_eq' cfg flats prevEpoch prevAtts currAtts total finalityDelay r hr
+
+/-- `currentTargetStake_eq` for phase0: the target stakes handed to the justification step -/
+theorem targetStakes_phase0_eq (cfg : Config) (flats : List Validator) (prevEpoch : Nat) (prevAtts currAtts : List ResolvedAtt) :
+    ((Impl.computeEpochAttesterDataPhase0 cfg flats prevEpoch prevAtts currAtts).prevTargetStake,
+     (Impl.computeEpochAttesterDataPhase0 cfg flats prevEpoch prevAtts currAtts).currTargetStake) =
+      target_balances_phase0_pure cfg flats prevAtts currAtts :=
+  Lemmas.targetStakes_phase0 cfg flats prevEpoch prevAtts currAtts
+
+/-- non-vacuity: a registry with attestations and matching balances -/
+example : ∃ (flats : List Validator) (balances : List Nat) (atts : List ResolvedAtt),
+    flats ≠ [] ∧ atts ≠ [] ∧ balances.length = flats.length :=
+  ⟨[default, default], [1, 2], [⟨[0, 1], 1, 0, true, false⟩], by simp, by simp, rfl⟩
 
 end Zrnt.Proofs.C02
